@@ -15,13 +15,14 @@ def _gen(ctx, seed, n, full):
     return [json.loads(x) for x in open(out)]
 
 
-def _rerun(ctx, rec):
+def _rerun(ctx, rec, context=()):
+    """the record is executed first, the calls of its context after it; results are looked at when all calls have been made"""
     vh = ctx.build(PKG)
     d = ctx.sub("replay")
     i, o = os.path.join(d, "in.ndjson"), os.path.join(d, "out.ndjson")
-    open(i, "w").write(json.dumps(rec) + "\n")
+    open(i, "w").write("".join(json.dumps(x) + "\n" for x in [rec] + list(context)))
     ctx.run([vh, "usysex-rerun", "-in", i, "-out", o], timeout=600)
-    new = json.loads(open(o).read())
+    new = json.loads(open(o).read().splitlines()[0])
     bad = ctx.validate(TRACE, [new], shards=1)
     if bad and bad[0][1] and bad[0][1].get("genbug"):
         raise Machinery("record outside what the Go signature can carry / unknown helper: %s" % bad[0][1])
@@ -86,6 +87,8 @@ def _validate(ctx, recs):
         if info and info.get("genbug"):
             raise Machinery("generator problem (not a violation): %s" % json.dumps(info)[:600])
         fails.append(Failure(signature(r, info), describe(r, info), {"family": "usysex", "record": _slim(r)}))
+        # results are read after all calls: the calls made after this one are part of the experiment
+        fails[-1].before = [_slim(x) for x in recs[max(0, idx - 32):idx]] + [_slim(x) for x in recs[idx + 1:idx + 65]]
     # smallest input first, arguments inside the range before others: the reported instance of a class is the plainest one
     # (the boundary tables are the same for every seed: the same instance is reported whatever the seed)
     fails.sort(key=lambda f: (sum(1 for x in f.payload["record"]["a"] if x > 127), "boundary" not in f.payload["record"]["feat"],
@@ -134,7 +137,7 @@ def run(ctx):
         "value (byte parameters 0..255, volume 0..65535); P1 for arguments in range the message is exactly F0 7F|7E <device> <sub-id1> <sub-id2> <data> F7 with the "
         "sub-ids of the MIDI 1.0 universal sysex tables (master volume 04 01 + 14 bit LSB first; GM on 09 01 / off 09 02; identity request 06 01 / reply 06 02 + id, "
         "family, model, version; MMC command 06 <cmd>; MMC locate 06 44 06 01 hr mn sc fr ff); P2 midi.SysEx(data) = F0 data F7 and GetSysEx returns data; "
-        "P3 mmc.Identity.Parse reads the channel back; P4 gm.Reset / gm.GMProgram emit the documented sequence on the channel, every message well formed, a GM "
+        "P3 mmc.Identity.Parse reads the channel back, mmc.GoTo.Parse the device and the time code; every result is read only after ALL calls of the run (an earlier result survives later calls); P4 gm.Reset / gm.GMProgram emit the documented sequence on the channel, every message well formed, a GM "
         "receiver ends in the GM default state; P5 gm.DrumKey.Key() is the GM percussion map.  Inputs: boundary products over "
         "{0,1,2,63,64,126,127,128,129,200,254,255} per byte argument, all 256 channels for the one-argument helpers, every MMC command byte, seeded random calls "
         "(1 in 4 byte arguments outside 0..127).  distinct key = (helper, arguments, payload)")
@@ -183,11 +186,12 @@ def run(ctx):
     def confirm(f):
         ok, new, info = _rerun(ctx, f.payload["record"])
         return ok
+    confirm.in_context = lambda hist, f: _rerun(ctx, f.payload["record"], hist)[0]
     ctx.report(fails, confirm, max_report=12)
 
 
 def replay(ctx, payload):
     rec = payload["payload"]["record"]
-    ok, new, info = _rerun(ctx, rec)
+    ok, new, info = _rerun(ctx, rec, payload["payload"].get("context") or ())
     print(json.dumps({"bytes": new["bytes"][:64], "msgs": new["msgs"], "info": info})[:3000])
     return ok
